@@ -75,7 +75,11 @@ Fixpoint zip4 (a b c d : list N) : list entry :=
 
 (* the columns are consumed in the order of the code: ids are summed while they are read, offsets
    are resolved while they are read (an arithmetic overflow there precedes a later end of input) *)
-Fixpoint read_ids (fuel : nat) (count last : N) (l : bytes) : outcome (list N * bytes) :=
+(* av: arithmetic variant regenerated from the source (Gen/Constants.pm_arith_variant): 0 = unchecked
+   u64 arithmetic (a panic with overflow checks), 1 = checked arithmetic, failing with an error *)
+Definition ovf {A} (av : N) : outcome A := if av =? 1 then Err else Overflow.
+
+Fixpoint read_ids (av : N) (fuel : nat) (count last : N) (l : bytes) : outcome (list N * bytes) :=
   if count =? 0 then Ok ([], l) else
   match fuel with
   | O => Err
@@ -83,12 +87,12 @@ Fixpoint read_ids (fuel : nat) (count last : N) (l : bytes) : outcome (list N * 
            | None => Err
            | Some (d, r) =>
                let s := last + d in
-               if two64 <=? s then Overflow else
-               obind (read_ids f (count - 1) s r) (fun p => Ok (s :: fst p, snd p))
+               if two64 <=? s then ovf av else
+               obind (read_ids av f (count - 1) s r) (fun p => Ok (s :: fst p, snd p))
            end
   end.
 
-Fixpoint read_offsets (fuel : nat) (prev : option (N * N)) (lens : list N) (l : bytes) : outcome (list N) :=
+Fixpoint read_offsets (av : N) (fuel : nat) (prev : option (N * N)) (lens : list N) (l : bytes) : outcome (list N) :=
   match lens with
   | [] => Ok []
   | len :: lr =>
@@ -98,32 +102,32 @@ Fixpoint read_offsets (fuel : nat) (prev : option (N * N)) (lens : list N) (l : 
                | None => Err
                | Some (tmp, r) =>
                    let o := match prev with
-                            | Some (po, pl) => if tmp =? 0 then (if two64 <=? po + pl then Overflow else Ok (po + pl))
+                            | Some (po, pl) => if tmp =? 0 then (if two64 <=? po + pl then ovf av else Ok (po + pl))
                                                else Ok (tmp - 1)
-                            | None => if tmp =? 0 then Overflow else Ok (tmp - 1)
+                            | None => if tmp =? 0 then ovf av else Ok (tmp - 1)
                             end in
-                   obind o (fun off => omap (cons off) (read_offsets f (Some (off, len)) lr r))
+                   obind o (fun off => omap (cons off) (read_offsets av f (Some (off, len)) lr r))
                end
       end
   end.
 
-Definition deserialize (l : bytes) : outcome (list entry) :=
+Definition deserialize (av : N) (l : bytes) : outcome (list entry) :=
   match read_varint l with
   | None => Err
   | Some (count, r0) =>
       if 10000000000 <? count then Err else
       let fuel := length l in
-      obind (read_ids fuel count 0 r0) (fun p1 =>
+      obind (read_ids av fuel count 0 r0) (fun p1 =>
       let '(ids, r1) := p1 in
       match read_n fuel count r1 with None => Err | Some (runs, r2) =>
       match read_n fuel count r2 with None => Err | Some (lens, r3) =>
-      obind (read_offsets fuel None lens r3) (fun offs =>
+      obind (read_offsets av fuel None lens r3) (fun offs =>
       Ok (zip4 ids offs lens (map (fun r => r mod 4294967296) runs)))   (* as u32 *)
       end end)
   end.
 
 (* ---------- find_tile ---------- *)
-Fixpoint find_loop (fuel : nat) (es : list entry) (m n : Z) (t : N) : outcome (option entry) :=
+Fixpoint find_loop (av : N) (fuel : nat) (es : list entry) (m n : Z) (t : N) : outcome (option entry) :=
   match fuel with
   | O => Panic
   | S f =>
@@ -131,36 +135,36 @@ Fixpoint find_loop (fuel : nat) (es : list entry) (m n : Z) (t : N) : outcome (o
         let k := Z.shiftr (n + m) 1 in
         match nth_error es (Z.to_nat k) with
         | None => Panic
-        | Some e => if e_id e <? t then find_loop f es (k + 1)%Z n t
-                    else if t <? e_id e then find_loop f es m (k - 1)%Z t
+        | Some e => if e_id e <? t then find_loop av f es (k + 1)%Z n t
+                    else if t <? e_id e then find_loop av f es m (k - 1)%Z t
                     else Ok (Some e)
         end
       else if (0 <=? n)%Z then
         match nth_error es (Z.to_nat n) with
         | None => Panic
         | Some e => if e_run e =? 0 then Ok (Some e)
-                    else if t <? e_id e then Overflow                  (* tile_id - entry.tile_id in u64 *)
+                    else if t <? e_id e then (if av =? 1 then Ok None else Overflow)   (* tile_id - entry.tile_id in u64 *)
                     else if t - e_id e <? e_run e then Ok (Some e) else Ok None
         end
       else Ok None
   end.
 
-Definition find_tile (es : list entry) (t : N) : outcome (option entry) :=
-  find_loop (S (length es)) es 0 (Z.of_nat (length es) - 1) t.
+Definition find_tile (av : N) (es : list entry) (t : N) : outcome (option entry) :=
+  find_loop av (S (length es)) es 0 (Z.of_nat (length es) - 1) t.
 
 (* ---------- lookup through the levels (get_tile_data: for _depth in 0..3) ---------- *)
-Fixpoint pm_lookup (depth : nat) (leaf : N -> N -> outcome (list entry)) (dir : list entry) (t : N)
+Fixpoint pm_lookup (av : N) (depth : nat) (leaf : N -> N -> outcome (list entry)) (dir : list entry) (t : N)
   : outcome (option entry) :=
   match depth with
   | O => Err                                                             (* bail!("not found") *)
   | S d =>
-      obind (find_tile dir t) (fun oe =>
+      obind (find_tile av dir t) (fun oe =>
       match oe with
       | None => Ok None
       | Some e =>
           if 0 <? e_len e then
             if 0 <? e_run e then Ok (Some e)
-            else obind (leaf (e_off e) (e_len e)) (fun dir' => pm_lookup d leaf dir' t)
+            else obind (leaf (e_off e) (e_len e)) (fun dir' => pm_lookup av d leaf dir' t)
           else Ok None
       end)
   end.
@@ -170,7 +174,7 @@ Definition run_ids (e : entry) : list N := map (fun i => e_id e + N.of_nat i) (s
 
 Fixpoint cov_ids (fuel : nat) (leaf : N -> N -> outcome (list entry)) (dir : list entry) : outcome (list N) :=
   match fuel with
-  | O => Panic                                                            (* unbounded recursion in the code *)
+  | O => Err                  (* depth limit (pm_depth_variant = 1: fuel 3); before the fix the recursion was unbounded *)
   | S f =>
       (fix go (es : list entry) : outcome (list N) :=
          match es with
